@@ -10,6 +10,7 @@ import (
 	"bytes"
 	"errors"
 	"fmt"
+	"os"
 	"runtime"
 	"slices"
 	"strings"
@@ -38,6 +39,8 @@ var c19T0 = time.Date(2100, 1, 1, 0, 0, 0, 0, time.UTC)
 
 const c19InfraWait = 20 * time.Second // wall-clock guard of the handshake: exceeding it is infrastructure trouble, never a verdict
 
+var c19Debug = os.Getenv("VERIF_C19_DEBUG") != ""
+
 var errC19Infra = errors.New("c19: quiescence handshake exceeded its wall-clock guard")
 
 // ---- virtual timer ------------------------------------------------------------------------------------
@@ -64,7 +67,7 @@ type c19Timer struct {
 	v        byte
 	deadline time.Duration
 	armed    bool
-	zero     bool // armed with zero delay: the wall-clock timer would tick at once
+	zero     bool   // armed with zero delay: the wall-clock timer would tick at once
 	kinds    []bool // one entry per tick sent and not yet answered by Height(): true = barrier tick
 	ack      chan c19Snap
 	resets   int
@@ -128,29 +131,32 @@ const (
 )
 
 type c19Out struct {
-	kind   int
-	raw    []byte
-	hashes []util.Uint256
-	blk    *coreb.Block
-	err    error
+	kind    int
+	raw     []byte
+	hashes  []util.Uint256
+	blk     *coreb.Block
+	err     error
 	poolErr error
 }
 
 type c19Node struct {
-	idx    int
-	net    *c19Net
-	bc     *core.Blockchain
-	srv    *service
-	tm     *c19Timer
-	ext    *extpool.Pool
-	logs   *observer.ObservedLogs
-	skew   time.Duration
-	silent bool
-	cbList []util.Uint256
-	snap   c19Snap
-	seenH  uint32 // chain height up to which the agreement oracle has looked at this node
+	idx        int
+	net        *c19Net
+	bc         *core.Blockchain
+	srv        *service
+	tm         *c19Timer
+	ext        *extpool.Pool
+	logs       *observer.ObservedLogs
+	skew       time.Duration
+	silent     bool
+	cbList     []util.Uint256
+	snap       c19Snap
+	seenH      uint32 // chain height up to which the agreement oracle has looked at this node
 	srvStopped bool
 	bcClosed   bool
+
+	probe  chan *coreb.Block // never read: used for the dispatcher handshake only
+	quietH uint32            // chain height at the last complete handshake
 
 	mu      sync.Mutex
 	outbox  []c19Out
@@ -238,10 +244,15 @@ func (n *c19Node) barrier(deadline time.Time) (c19Snap, error) {
 	}
 }
 
-// quiesce waits until the node's event loop has consumed everything that was handed to it, has finished
-// processing it (barrier), and has taken notice of every block its chain holds (dBFT context initialised at
-// chain height + 1, which is what handleChainBlock does for every block event). Nothing else is injected
-// meanwhile, so the state reached does not depend on how long any of this takes.
+// quiesce waits until the node's event loop has consumed everything that was handed to it and has finished
+// processing it, including every block notification of its chain. Nothing else is injected meanwhile, so the state
+// reached does not depend on how long any of this takes. Steps, repeated until a whole round sees nothing new:
+//
+//  1. the loop's input channels are empty (the loop took the items), then a barrier tick is answered: the loop is
+//     back in its select, so processing (including a synchronous AddBlock of a committed block) is over;
+//  2. a subscribe/unsubscribe pair on the chain: the notification dispatcher accepts it only between events, so
+//     every block event of blocks added so far has been pushed into the service's channel;
+//  3. if that channel was non-empty or the chain grew, go again (the loop handles the event), else done.
 func (n *c19Node) quiesce() error {
 	s := n.srv
 	deadline := time.Now().Add(c19InfraWait)
@@ -249,14 +260,29 @@ func (n *c19Node) quiesce() error {
 		if f := n.getFatal(); f != "" {
 			return fmt.Errorf("node %d: log.Fatal: %s", n.idx, f)
 		}
-		if len(s.messages) == 0 && len(s.transactions) == 0 && len(n.tm.ch) == 0 {
+		if len(s.messages) == 0 && len(s.transactions) == 0 && len(n.tm.ch) == 0 && len(s.blockEvents) == 0 {
 			snap, err := n.barrier(deadline)
 			if err != nil {
 				return err
 			}
-			if len(s.blockEvents) == 0 && snap.blockIndex == n.bc.BlockHeight()+1 {
+			h0 := n.bc.BlockHeight()
+			if h0 == n.quietH && len(s.blockEvents) == 0 {
+				// no block since the last complete handshake: no notification can be under way
 				n.snap = snap
 				return nil
+			}
+			n.bc.SubscribeForBlocks(n.probe)
+			n.bc.UnsubscribeFromBlocks(n.probe)
+			if len(s.blockEvents) == 0 {
+				snap, err := n.barrier(deadline)
+				if err != nil {
+					return err
+				}
+				if len(s.blockEvents) == 0 && n.bc.BlockHeight() == h0 {
+					n.snap = snap
+					n.quietH = h0
+					return nil
+				}
 			}
 		}
 		if time.Now().After(deadline) {
@@ -307,9 +333,9 @@ type c19Net struct {
 	autoZero    bool
 	// proposal probe only: the harness itself hands an invalid PrepareRequest to a backup
 	tolerateInvalidRequest bool
-	deliveries  int
-	maxView     int
-	committed   int
+	deliveries             int
+	maxView                int
+	committed              int
 }
 
 func (net *c19Net) logf(f string, a ...any) {
@@ -343,7 +369,7 @@ func (net *c19Net) fail(f string, a ...any) error {
 func c19NewNet(w *c19World, pools [][]int, skewMs []int, bypassDedup, poolFirst bool) (*c19Net, error) {
 	net := &c19Net{w: w, f: (w.n - 1) / 3, labels: map[string]bool{}, canon: map[uint32]c19Canon{}, bypassDedup: bypassDedup, poolFirst: poolFirst}
 	for j := 0; j < w.n; j++ {
-		n := &c19Node{idx: j, net: net, fatalCh: make(chan struct{})}
+		n := &c19Node{idx: j, net: net, fatalCh: make(chan struct{}), probe: make(chan *coreb.Block, 8)}
 		if j < len(skewMs) {
 			n.skew = time.Duration(skewMs[j]) * time.Millisecond
 		}
@@ -368,7 +394,11 @@ func c19NewNet(w *c19World, pools [][]int, skewMs []int, bypassDedup, poolFirst 
 			}
 		}
 		n.ext = extpool.New(bc, 20, func([]util.Uint256) {})
-		obs, logs := observer.New(zapcore.InfoLevel)
+		lvl := zapcore.InfoLevel
+		if os.Getenv("VERIF_C19_DEBUG") != "" {
+			lvl = zapcore.DebugLevel
+		}
+		obs, logs := observer.New(lvl)
 		n.logs = logs
 		srv, err := NewService(Config{
 			Logger:                zap.New(obs, zap.WithFatalHook(n)),
@@ -438,7 +468,9 @@ type c19Info struct {
 	from   byte
 }
 
-func (i c19Info) String() string { return fmt.Sprintf("%s h%d v%d from v%d", i.typ, i.height, i.view, i.from) }
+func (i c19Info) String() string {
+	return fmt.Sprintf("%s h%d v%d from v%d", i.typ, i.height, i.view, i.from)
+}
 
 func (net *c19Net) decodeExt(raw []byte) (*npayload.Extensible, c19Info, error) {
 	e := npayload.NewExtensible()
@@ -462,6 +494,10 @@ func (net *c19Net) after(n *c19Node) error {
 			return err
 		}
 		return net.fail("%v", err)
+	}
+	if h := n.bc.BlockHeight(); n.snap.blockIndex != h+1 {
+		// handleChainBlock re-initialises dBFT for every block the chain gains; all notifications are in.
+		return net.fail("node %d: every block notification was processed, its ledger is at height %d, but its consensus works on height %d (expected %d)", n.idx, h, n.snap.blockIndex, h+1)
 	}
 	if int(n.snap.view) > net.maxView {
 		net.maxView = int(n.snap.view)
@@ -494,6 +530,9 @@ func (net *c19Net) scanLogs(n *c19Node) error {
 		}
 		if e.Message == "received commit for different view" {
 			net.label("commit-of-other-view-seen")
+		}
+		if c19Debug && e.Message != "recovery message received" {
+			net.logf("      n%d %s %s %v", n.idx, e.Level, e.Message, e.ContextMap())
 		}
 		if e.Level == zapcore.WarnLevel {
 			net.label("warn: " + e.Message)
